@@ -17,7 +17,22 @@ func ConvertTensorDtype(t tensor.Tensor, newType int32) (tensor.Tensor, error) {
 		newBacking any
 	)
 
-	backing := IfScalarToSlice(t.Data())
+	// The backing of a scalar is not a slice; convert a one-element vector instead.
+	if len(t.Shape()) == 0 {
+		vector, err := AddExtraDimsToTensor(t, 1)
+		if err != nil {
+			return nil, err
+		}
+
+		converted, err := ConvertTensorDtype(vector, newType)
+		if err != nil {
+			return nil, err
+		}
+
+		return converted, converted.Reshape()
+	}
+
+	backing := t.Data()
 
 	switch t.Dtype() {
 	case tensor.Float32:
